@@ -138,7 +138,21 @@ static void failing_registration_case(int reactor,const char *rname,int kind,int
 	if(c1.find("error")!=std::string::npos) vf::guard("io_wait_registrations_refused"); vf::guard("failing_registration_cases"); vf::C().traces++; vf::outcome("S7|"+std::string(rname)+"|"+std::to_string(kind)+"|"+std::to_string(follow)+"|"+c1+"|"+c2);
 	{ static uint64_t sc=0; if(vf::sample_tick(sc,7)) vf::sample("{\"case\":"+vf::jstr(cs)+",\"first_handler\":"+vf::jstr(c1)+",\"second_handler\":"+vf::jstr(c2)+"}",70); }
 	if(kind!=1&&fd>=0) ::close(fd); if(aux>=0) ::close(aux); }
-static void failing_registration_pass(){ int reactors[]={io::reactor::use_epoll,io::reactor::use_poll,io::reactor::use_select}; const char *rn[]={"epoll","poll","select"}; for(int r=0;r<3;r++) for(int kind=0;kind<4;kind++) for(int follow=0;follow<4;follow++) failing_registration_case(reactors[r],rn[r],kind,follow); }
+// S8 (sequential): a wait armed and cancelled while the loop is NOT running - before its first run(), or after stop() + reset() - on a descriptor that is or is not
+// readable. When the loop then runs, the handler must be invoked exactly once, with the cancellation code (the cancel came first), never with success.
+static void cancel_before_run_case(int reactor,const char *rname,int phase,int readable,int how){ const char *ph[]={"before the first run()","after stop() and reset()"}; const char *hw[]={"cancel_io_events","stream_socket::cancel","stream_socket::close"}; std::string cs="S8 cancel while the loop is not running reactor="+std::string(rname)+" "+ph[phase]+(readable?" readable descriptor":" idle descriptor")+" via "+hw[how]; vf::announce(cs); vf::eval();
+	io::io_service srv(reactor); int sp[2]; if(socketpair(AF_UNIX,SOCK_STREAM,0,sp)){ vf::guard("failing_registration_cases_skipped"); return; } if(readable){ if(write(sp[1],"x",1)!=1){} }
+	if(phase==1){ srv.post([&srv](){ srv.stop(); }); srv.run(); srv.reset(); }
+	int n=0; std::string codes; auto code=[](error_code const &e){ return !e?std::string("ok"): e==error_code(io::aio_error::canceled,io::aio_error_cat)?std::string("canceled"):std::string("error"); };
+	std::unique_ptr<io::stream_socket> ss; if(how==0){ srv.set_io_event(sp[0],io::io_service::in,[&](error_code const &e){ n++; codes+=code(e)+","; }); srv.cancel_io_events(sp[0]); }
+	else { ss.reset(new io::stream_socket(srv)); ss->assign(sp[0]); ss->on_readable([&](error_code const &e){ n++; codes+=code(e)+","; }); if(how==1) ss->cancel(); else { error_code e; ss->close(e); sp[0]=-1; } }
+	int hop=6; std::function<void()> tick; tick=[&](){ if(--hop>0) srv.post(tick); else srv.stop(); }; srv.post(tick); srv.run();
+	std::string fail; if(n!=1) fail="the handler ran "+std::to_string(n)+" times ("+codes+")"; else if(codes!="canceled,"&&codes!="error,") fail="the handler of a wait cancelled before the loop ran was invoked with '"+codes+"' instead of a cancellation or error code";
+	if(!fail.empty()) vf::violation(std::string("io-wait:cancelled-before-run:")+rname,fail+" ["+cs+"]","\"case\":"+vf::jstr(cs)); vf::guard("cancel_before_run_cases"); vf::C().traces++; vf::outcome("S8|"+std::string(rname)+"|"+std::to_string(phase)+std::to_string(readable)+std::to_string(how)+"|"+codes);
+	{ static uint64_t sc=0; if(vf::sample_tick(sc,5)) vf::sample("{\"case\":"+vf::jstr(cs)+",\"handler\":"+vf::jstr(codes)+"}",80); }
+	if(ss.get()){ if(how!=2){ error_code e; ss->close(e); sp[0]=-1; } ss.reset(); } if(sp[0]>=0) ::close(sp[0]); ::close(sp[1]); }
+static void failing_registration_pass(){ { int reactors[]={io::reactor::use_epoll,io::reactor::use_poll,io::reactor::use_select}; const char *rn[]={"epoll","poll","select"}; for(int r=0;r<3;r++) for(int phase=0;phase<2;phase++) for(int rd=0;rd<2;rd++) for(int how=0;how<3;how++) cancel_before_run_case(reactors[r],rn[r],phase,rd,how); }
+ int reactors[]={io::reactor::use_epoll,io::reactor::use_poll,io::reactor::use_select}; const char *rn[]={"epoll","poll","select"}; for(int r=0;r<3;r++) for(int kind=0;kind<4;kind++) for(int follow=0;follow<4;follow++) failing_registration_case(reactors[r],rn[r],kind,follow); }
 static uint64_t n_exec=0;
 static void run_scenario(const Scenario &s,int reactor,const char *rname,int bound,bool adopt){ std::string cs=s.name+" reactor="+rname; vf::announce(cs); std::shared_ptr<Book> cur; std::set<std::string> outcomes; sched::G.virtual_clock=true; sched::G.adopt_threads=adopt;
 	auto factory=[&]()->Bodies{ return s.build(cur,reactor); };
@@ -156,7 +170,7 @@ int main(int argc,char **argv){ vf::init(argc,argv,"C17","model_checking");
 	tsan_pass(); return vf::finish();
 #else
 	bool th=vf::thorough(); int bound=th?3:2; std::vector<Scenario> S=scenarios(); int reactors[]={io::reactor::use_epoll,io::reactor::use_poll,io::reactor::use_select}; const char *rn[]={"epoll","poll","select"};
-	vf::C().rule="S7 (sequential): I/O waits whose registration the reactor refuses (regular file, closed descriptor, descriptor >= FD_SETSIZE; plus a valid socket) x 3 reactors x {cancel, cancel twice, second wait then cancel, nothing}: each handler exactly once. S6 (sequential): N in {1,2,10,500,999,1000,1001,1500,2500; thorough +5000,12000,20000} simultaneously pending timers x 6 (16) shifts of the slot generator x 5 cancel/expire orders: ids pairwise distinct among pending timers, every handler exactly once with the right code. Scenarios S1 (two producers posting plain/event/io/nested handlers), S2 (timers armed with equal, past and future deadlines and cancelled from another thread, cancel racing expiry, double cancel), S3 (two descriptors becoming readable/writable, writer thread, canceller), S4 (stop racing post) x reactors {epoll, poll, select}, and S5 (thread_pool(2): five jobs, one throwing, one cancelled, stop) - every schedule with <= "+std::to_string(bound)+" preemptions ("+std::to_string(bound-1)+" for S2 and S3); scheduling points: every pthread mutex / condition operation, poll/epoll_wait/select, explicit yields around descriptor writes; virtual clock. states = distinct handler-outcome vectors, transitions = scheduling decisions, traces = executions of the real code";
+	vf::C().rule="S8 (sequential): a wait armed and cancelled (cancel_io_events / stream_socket::cancel / close) while the loop is not running (before the first run(), after stop()+reset()) x readable/idle descriptor x 3 reactors: handler exactly once with a cancellation or error code, never success. S7 (sequential): I/O waits whose registration the reactor refuses (regular file, closed descriptor, descriptor >= FD_SETSIZE; plus a valid socket) x 3 reactors x {cancel, cancel twice, second wait then cancel, nothing}: each handler exactly once. S6 (sequential): N in {1,2,10,500,999,1000,1001,1500,2500; thorough +5000,12000,20000} simultaneously pending timers x 6 (16) shifts of the slot generator x 5 cancel/expire orders: ids pairwise distinct among pending timers, every handler exactly once with the right code. Scenarios S1 (two producers posting plain/event/io/nested handlers), S2 (timers armed with equal, past and future deadlines and cancelled from another thread, cancel racing expiry, double cancel), S3 (two descriptors becoming readable/writable, writer thread, canceller), S4 (stop racing post) x reactors {epoll, poll, select}, and S5 (thread_pool(2): five jobs, one throwing, one cancelled, stop) - every schedule with <= "+std::to_string(bound)+" preemptions ("+std::to_string(bound-1)+" for S2 and S3); scheduling points: every pthread mutex / condition operation, poll/epoll_wait/select, explicit yields around descriptor writes; virtual clock. states = distinct handler-outcome vectors, transitions = scheduling decisions, traces = executions of the real code";
 	vf::assume("a loop that sleeps until its one-hour poll timeout while handlers are pending is reported as a lost wake-up (the virtual clock would have to jump past every deadline the scenario armed)"); vf::assume("timers are armed on the millisecond grid; the virtual clock only takes values on that grid"); vf::assume("the data-race clause is decided by ThreadSanitizer on free-running executions of the same scenarios");
 	if(!vf::C().replay_file.empty()) printf("replay: the replay file names scenario, reactor and schedule (choice vector); re-running the quick tier reproduces it\n");
 	std::vector<std::pair<int,int> > jobs; for(size_t si=0;si<S.size();si++) for(int r=0;r<3;r++) jobs.push_back(std::make_pair(si,r)); jobs.push_back(std::make_pair(-1,0)); for(int k=0;k<3;k++) jobs.push_back(std::make_pair(-2,k));
@@ -164,7 +178,7 @@ int main(int argc,char **argv){ vf::init(argc,argv,"C17","model_checking");
 	{ std::string cmd=std::string("timeout -k 5 ")+(vf::thorough()?"1500 ":"400 ")+vf::verif_dir()+"/build/bin/C17.tsan --tier "+vf::C().tier+" --pass tsan --result '"+vf::scratch_dir()+"/tsan.res' 2>'"+vf::scratch_dir()+"/tsan.err'"; int st=system(cmd.c_str()); FILE *f=fopen((vf::scratch_dir()+"/tsan.res").c_str(),"rb"); bool merged=f&&vf::merge_ctx(f); if(f) fclose(f); std::string err; { std::ifstream e(vf::scratch_dir()+"/tsan.err"); std::stringstream ss; ss<<e.rdbuf(); err=ss.str(); }
 	  if(WIFEXITED(st)&&(WEXITSTATUS(st)==124||WEXITSTATUS(st)==137)){ vf::violation("free-running-pass-hang","the free-running ThreadSanitizer pass did not terminate within its time limit (livelock, deadlock or a corrupted structure): "+err.substr(0,300),"\"report\":"+vf::jstr(err.substr(0,1500))); }
 	  else if(err.find("ThreadSanitizer: data race")!=std::string::npos||(WIFEXITED(st)&&WEXITSTATUS(st)==66)){ size_t p=err.find("WARNING: ThreadSanitizer"); std::string rep= p==std::string::npos?err.substr(0,1500):err.substr(p,1500); std::string fn; size_t q=rep.find("#0 "); if(q!=std::string::npos){ size_t e2=rep.find('\n',q); fn=rep.substr(q,e2-q); } vf::violation("data-race","ThreadSanitizer reports a data race in the free-running pass: "+fn,"\"report\":"+vf::jstr(rep)); } else if(!merged||st!=0){ fprintf(stderr,"harness error: tsan pass failed (status %d): %s\n",st,err.substr(0,800).c_str()); vf::C().harness_error=true; } }
-	vf::require_guard("executions"); vf::require_guard("executions_with_virtual_time_advance"); vf::require_guard("scenarios_with_several_outcomes"); vf::require_guard("tsan_free_runs"); vf::require_guard("many_timer_cases_with_table_growth"); vf::require_guard("failing_registration_cases"); vf::require_guard("io_wait_registrations_refused");
+	vf::require_guard("executions"); vf::require_guard("executions_with_virtual_time_advance"); vf::require_guard("scenarios_with_several_outcomes"); vf::require_guard("tsan_free_runs"); vf::require_guard("many_timer_cases_with_table_growth"); vf::require_guard("failing_registration_cases"); vf::require_guard("cancel_before_run_cases"); vf::require_guard("io_wait_registrations_refused");
 	return vf::finish();
 #endif
 }
